@@ -4,7 +4,7 @@
    ARGS_GET_CLASS / ARGS_CREATE_INSTANCE / ARGS_REQUIRED of harness/src_functions.py), for every record of importlib /
    pkgutil / inspect primitives and all inputs; and facts about the models. *)
 From Coq Require Import ZArith List Bool Lia.
-From Batchie Require Import Lib.Sexp Lib.PyRt Model.Cli Generated.SrcCli Generated.SrcCliArgs Proofs.PyRtLemmas Proofs.C18SourceArgs.
+From Batchie Require Import Lib.Sexp Lib.PyRt Model.Cli Generated.SrcCli Generated.SrcCliArgs Proofs.PyRtLemmas Proofs.C18SourceArgs_Cmd.
 Import ListNotations.
 Open Scope Z_scope.
 
